@@ -286,17 +286,17 @@ void dnse_settle(void)
 {
 	double t0 = 0;
 	for (int spin = 0;; spin++) {
-		int busy = 0;
+		int busy = 0;          /* bit mask of reasons, reported when the wait times out */
 		accept_all();
 		prune_clients();
 		for (int i = 0; i < ncli; i++) {
 			int st = tcp_state(cli[i].fd);
 			if (st < 0) continue;
-			if (st == TCP_SYN_SENT) { busy = 1; continue; }
+			if (st == TCP_SYN_SENT) { busy |= 1; continue; }
 			if (st == TCP_ESTABLISHED || st == TCP_CLOSE_WAIT) {
-				if (outq(cli[i].fd) > 0) busy = 1;
+				if (outq(cli[i].fd) > 0) busy |= 2;
 				int lp = local_port(cli[i].fd);
-				if (lp > 0 && !port_seen(lp)) busy = 1;     /* handshake done, not yet in our accept queue */
+				if (lp > 0 && !port_seen(lp)) busy |= 4;     /* handshake done, not yet in our accept queue */
 			}
 		}
 		for (int i = 0; i < DNSE_MAXNS; i++)
@@ -305,14 +305,14 @@ void dnse_settle(void)
 				if (!t->open) continue;
 				int st = tcp_state(t->fd);
 				if (st == TCP_ESTABLISHED) {
-					if (outq(t->fd) > 0) busy = 1;
+					if (outq(t->fd) > 0) busy |= 8;
 					/* peer gone (libevent closed its end): the FIN/RST must reach us */
-					if (client_with_port(t->peer_port) < 0) busy = 1;
+					if (client_with_port(t->peer_port) < 0) busy |= 16;
 				}
 			}
 		if (!busy) break;
 		if (spin == 0) { t0 = now_real(); dnse_spins++; }
-		else if (now_real() - t0 > 15.0) { mc_fail("harness:net-settle-timeout", "loopback TCP traffic still in flight after 15 s"); break; }
+		else if (now_real() - t0 > 15.0) { mc_fail("harness:net-settle-timeout", "loopback TCP traffic still in flight after 15 s (reasons %#x, %d client sockets, %d accepted so far)", busy, ncli, nseen); break; }
 		tiny_sleep();
 	}
 }
